@@ -44,6 +44,12 @@ func (o *c17Op) spelled() string {
 		return "./" + o.Path
 	case "updown":
 		return "sub/../" + o.Path
+	case "slash": // exists only: a trailing slash demands a directory
+		return o.Path + "/"
+	case "slashdot":
+		return o.Path + "/."
+	case "ghost": // exists only: ".." after a directory that does not exist
+		return "no-such-dir/../" + o.Path
 	}
 	return o.Path
 }
@@ -201,6 +207,18 @@ func c17Gen(rng *gen.Rng, population string) *c17Hist {
 			paths = append(paths, p)
 		}
 	}
+	// a path whose name is derived from another path of the history (the names tools
+	// pick for temporary, backup and lock files): writing one must not disturb the other
+	if rng.Chance(35) && len(paths) > 0 {
+		base := rng.Pick(paths)
+		if !strings.HasPrefix(base, "sub/") || true {
+			sib := base + rng.Pick([]string{".tmp", "~", ".bak", ".new", ".old", ".lock", ".swp", ".orig", ".1", ".tmp~"})
+			if rng.Chance(15) && !strings.Contains(base, "/") {
+				sib = "." + base + ".tmp"
+			}
+			paths = append(paths, sib)
+		}
+	}
 	content := func() string {
 		if extC && rng.Chance(45) {
 			return rng.Pick(c17ExtContents)
@@ -298,7 +316,11 @@ func c17Gen(rng *gen.Rng, population string) *c17Hist {
 					q = "absent.txt"
 				}
 			}
-			h.Ops = append(h.Ops, c17Op{Kind: "exists", Spell: map[bool]string{true: spell, false: ""}[q == p], Path: q, Render: render, POrigin: origin(q)})
+			sp := map[bool]string{true: spell, false: ""}[q == p]
+			if q == p && rng.Chance(12) {
+				sp = rng.Pick([]string{"slash", "slashdot", "ghost"})
+			}
+			h.Ops = append(h.Ops, c17Op{Kind: "exists", Spell: sp, Path: q, Render: render, POrigin: origin(q)})
 		case k < 94:
 			if cuts > 0 {
 				cuts--
@@ -637,6 +659,12 @@ func (h *c17Hist) render(seed uint64) []*c17Segment {
 			}
 			fmt.Fprintf(&sb, "print(\"<<X%d>>\", ee%d, \"<<E%d>>\")\n", id, id, id)
 			q := op.Path
+			if op.Spell == "ghost" {
+				q = "no-such-dir/ghost" // the kernel fails at the missing directory
+			}
+			if op.Spell == "slash" || op.Spell == "slashdot" {
+				q += "/"
+			}
 			needDir := strings.HasSuffix(q, "/") || strings.HasSuffix(q, "/.")
 			q = pathpkg.Clean(q)
 			_, isF := m.Files[q]
